@@ -449,6 +449,18 @@ def stateSumMatchesBalance (e : Env) (w : World) : Bool :=
   (let bal := w.bank.balance e.mainAddr
    (isZero ints && isZero bal) || (nz ints == nz bal))
 
+/-! ## the environment facts the whole-block theorems assume, as evaluable checks -/
+
+/-- only `distributor_main_account` resolves to the main address, no module is named "", and the
+    main module may burn (facts about `maccPerms` / `NewModuleAddress`) -/
+def envOkB (e : Env) : Bool :=
+  e.modules.all (fun m => m.addr ≠ e.mainAddr || m.name = mainModule) && (e.modAddr? "").isNone &&
+  (((e.modules.find? (·.name = mainModule)).map (·.burner)).getD false)
+
+/-- no destination flagged as valid bech32 has the empty id -/
+def bech32FactsB (subs : List SubD) : Bool :=
+  subs.all (fun s => s.shares.all (fun sh => !sh.dest.bech32Ok || sh.dest.id ≠ "") && (!s.primary.bech32Ok || s.primary.id ≠ ""))
+
 /-! ## genesis (types/state.go `State.Validate`, types/genesis.go `GenesisState.Validate`, genesis.go `InitGenesis`) -/
 
 /-- `State.Validate`, with the D36 repair: a non-burn state whose store key would be the burn
